@@ -31,7 +31,7 @@ def strategy(tier):
     vt = B.with_schedule(B.program(), 1)
     f1 = B.with_schedule(B.program(nmax=4, with_foreign=1), 2)
     f2 = B.with_schedule(B.program(nmax=3, with_foreign=2), 3)
-    return st.one_of(vt, vt, f1, f2)
+    return st.one_of(vt, vt, f1, f2, B.pileup())
 
 
 def run_case(case):
